@@ -133,6 +133,7 @@ DEVIATIONS = {
     'band7_16': {'f_range': (7, 16)},
     'fs128': {'fs': 128, 'f_range': (12, 28)},
     'nosamp': {'return_samples': False},
+    'mbd': {'min_burst_duration': .1},      # burst options carry a minimum burst duration in seconds (amplitude method only)
     'thr1': {'thr': 1},
     'nothr': {'thr': None},                # threshold_kwargs omitted: documented defaults
     'b0': {'boundary': 0},                  # explicit default boundary
@@ -173,7 +174,7 @@ def compatible(devs):
 
 def option_sets(max_dev, menu=None):
     """All option sets (tuples of deviation names, sorted) with at most max_dev deviations."""
-    menu = [d for d in DEVIATIONS if d != 'int16big' and d not in LONG_DEVS] if menu is None else list(menu)
+    menu = [d for d in DEVIATIONS if d not in ('int16big', 'mbd') and d not in LONG_DEVS] if menu is None else list(menu)
     out = [()]
     for k in range(1, max_dev + 1):
         for c in itertools.combinations(menu, k):
@@ -186,7 +187,7 @@ def resolve(devs):
     """Turn a tuple of deviation names into concrete call parameters."""
     o = {'fs': 64, 'f_range': (6, 14), 'center_extrema': 'peak', 'burst_method': 'cycles',
          'filter_kwargs': None, 'boundary': None, 'return_samples': True, 'thr': 0,
-         'scale': 1.0, 'offset': 0.0, 'negate': False, 'layout': 'plain', 'drift': 0.0, 'argtypes': None}
+         'scale': 1.0, 'offset': 0.0, 'negate': False, 'layout': 'plain', 'drift': 0.0, 'argtypes': None, 'min_burst_duration': None}
     for d in devs:
         o.update(copy.deepcopy(DEVIATIONS[d]))
     return o
@@ -203,6 +204,8 @@ def call_kwargs(o):
         if o['thr'] is not None:
             kw['threshold_kwargs'] = dict(TA0 if o['thr'] == 0 else TA1)
         kw['burst_kwargs'] = {'amp_threshes': (.5, 1.)}
+        if o.get('min_burst_duration') is not None:
+            kw['burst_kwargs']['min_burst_duration'] = o['min_burst_duration']
     fek = {}
     if o['filter_kwargs'] is not None:
         fek['filter_kwargs'] = dict(o['filter_kwargs'])
